@@ -57,7 +57,32 @@ def _index(n, pos):
   return {"first": 0, "second": min(1, n - 1), "middle": n // 2, "penult": max(0, n - 2), "last": n - 1}[pos]
 
 
+# TTI block header: field -> (offset, length); values a broken authoring tool leaves behind
+STL_TTI_FIELDS = {"sgn": (0, 1), "sn": (1, 2), "ebn": (3, 1), "cs": (4, 1), "tci": (5, 4), "tco": (9, 4), "vp": (13, 1), "jc": (14, 1), "cf": (15, 1)}
+STL_FIELD_VALUES = [0, 1, 2, 3, 4, 23, 24, 25, 59, 60, 0xEF, 0xF0, 0xFE, 0xFF]
+
+
+def _stl_header_fault(data: bytes, fault, rng) -> bytes:
+  """STL-aware variants of "boundary" (one TTI header field set to a boundary value) and "swap" on tokens (time code in and
+  time code out exchanged): the TTI block is the one at the fault's position."""
+  n = max(0, (len(data) - 1024 + 127) // 128)
+  if n == 0:
+    return data
+  off = 1024 + 128 * _index(n, fault["pos"])
+  b = bytearray(data)
+  if fault["kind"] == "swap":
+    b[off + 5:off + 9], b[off + 9:off + 13] = b[off + 9:off + 13], b[off + 5:off + 9]
+  else:
+    o, ln = STL_TTI_FIELDS[rng.choice(sorted(STL_TTI_FIELDS))]
+    for k in range(ln):
+      if off + o + k < len(b) and (ln == 1 or rng.random() < 0.6):
+        b[off + o + k] = rng.choice(STL_FIELD_VALUES)
+  return bytes(b)
+
+
 def apply_fault(data: bytes, fault, fmt: str, rng) -> bytes:
+  if fmt == "stl" and ((fault["kind"] == "boundary" and fault["unit"] != "byte") or (fault["kind"] == "swap" and fault["unit"] == "token")):
+    return _stl_header_fault(data, fault, rng)
   parts = _split(data, fault["unit"], fmt)
   if fault["unit"] == "token" and fmt != "stl":
     # positions refer to non-blank tokens
